@@ -21,9 +21,9 @@
 #define FX_HEAD  (FX_T0 + 86400ULL * 60 + 9)    /* calendar head */
 
 enum { FXE_CORRECT = 0, FXE_OTHER_ROOT, FXE_OTHER_INPUT, FXE_OTHER_AGGR_TIME, FXE_RIGHT_ALTERED, FXE_ERROR_STATUS, FXE_ERROR_PDU, FXE_BAD_MAC,
-       FXE_WRONG_ID, FXE_NO_REPLY, FXE_RIGHT_EXTRA, FXE_RIGHT_EXTRA_TOP, FXE_NO_AGGR_TIME_FIELD, FXE_NBEH };
+       FXE_WRONG_ID, FXE_NO_REPLY, FXE_RIGHT_EXTRA, FXE_RIGHT_EXTRA_TOP, FXE_NO_AGGR_TIME_FIELD, FXE_ERROR_STATUS_WIDE, FXE_NBEH };
 static const char *FXE_NAME[FXE_NBEH] = {"correct", "other-root", "other-input", "other-aggr-time", "right-altered", "error-status", "error-pdu", "bad-mac", "wrong-id", "no-reply",
-                                         "right-extra", "right-extra-top", "no-aggr-time-field"};
+                                         "right-extra", "right-extra-top", "no-aggr-time-field", "error-status-wide"};
 
 typedef struct {
 	int ext_behaviour;
@@ -98,7 +98,8 @@ static void fx_handler(const unsigned char *req, size_t n, vbuf *resp, void *use
 		default: break;
 	}
 	rs_serialize_cal(&cal, &calb);
-	rp_ext_resp_payload(&payload, e.version, id, 1, FXS.ext_behaviour == FXE_ERROR_STATUS ? 0x0201 : 0, FXS.ext_behaviour == FXE_ERROR_STATUS ? "database missing" : NULL, 1, FX_HEAD, calb.p, calb.n);
+	rp_ext_resp_payload(&payload, e.version, id, 1, FXS.ext_behaviour == FXE_ERROR_STATUS ? 0x0201 : FXS.ext_behaviour == FXE_ERROR_STATUS_WIDE ? 0x300000000ULL : 0,
+	                    (FXS.ext_behaviour == FXE_ERROR_STATUS || FXS.ext_behaviour == FXE_ERROR_STATUS_WIDE) ? "database missing" : NULL, 1, FX_HEAD, calb.p, calb.n);   /* the wide status (a multiple of 2^32) comes with the honest chain */
 	rp_wrap_response(resp, &e, payload.p, payload.n);
 done:
 	rp_req_free(&r);
